@@ -83,16 +83,40 @@ Definition spec_tree (selp : rid -> option transform) (evs : list hev) : option 
 
 (* ---------- observable position discipline of a result tree ---------- *)
 (* every position visible in the tree lies in [lo, hi]; a node's children lie inside the node and
-   each sibling starts at or after the last position known of its elder sibling *)
-Definition upper (t : tree) (hi : N) : N := match t_end t with Some e => pbyte e | None => hi end.
+   each sibling starts at or after the last position known of its elder sibling (its end, or its
+   begin when the content was removed) *)
 Definition known_end (t : tree) : N := match t_end t with Some e => pbyte e | None => pbyte (t_begin t) end.
+Definition chain (P : N -> tree -> Prop) : N -> list tree -> Prop :=
+  fix go (lo : N) (l : list tree) : Prop :=
+    match l with [] => True | c :: tl => P lo c /\ go (known_end c) tl end.
 Fixpoint tree_ok (lo hi : N) (t : tree) {struct t} : Prop :=
   match t with
   | Node _ b e ch =>
-      lo <= pbyte b /\ pbyte b <= upper t hi /\ upper t hi <= hi /\
-      (fix forest_ok (lo' : N) (l : list tree) {struct l} : Prop :=
-         match l with
-         | [] => True
-         | c :: tl => tree_ok lo' (upper t hi) c /\ forest_ok (known_end c) tl
-         end) (pbyte b) ch
+      let up := match e with Some e' => pbyte e' | None => hi end in
+      lo <= pbyte b /\ pbyte b <= up /\ up <= hi /\ chain (fun lo' c => tree_ok lo' up c) (pbyte b) ch
   end.
+Definition forest_ok (lo hi : N) (l : list tree) : Prop := chain (fun lo' c => tree_ok lo' hi c) lo l.
+
+(* the matching discipline of a call forest, as far as the selected rules can see it: an attempt that
+   contributes nodes lies in [lo, hi], the contributing attempts inside it lie inside it, and each
+   starts at or after the end of the previous contributing one.  Holds for runs without look-ahead
+   (at / not_at / rematch re-read input); it is what "children contained in and ordered within their
+   parent" needs and exactly what C12_spans_refuted_lookahead violates. *)
+Definition c_end (t : ctree) : pos := match t with CT _ _ _ e _ => e end.
+Definition cchain (contrib : ctree -> bool) (P : N -> ctree -> Prop) : N -> list ctree -> Prop :=
+  fix go (lo : N) (l : list ctree) : Prop :=
+    match l with
+    | [] => True
+    | k :: tl => (contrib k = true -> P lo k) /\ go (if contrib k then pbyte (c_end k) else lo) tl
+    end.
+Section Mono.
+Variable selp : rid -> option transform.
+Definition contributes (t : ctree) : bool := match deriv selp t with [] => false | _ => true end.
+Fixpoint cmono (lo hi : N) (t : ctree) {struct t} : Prop :=
+  match t with
+  | CT r b h e kids =>
+      lo <= pbyte b /\ pbyte b <= pbyte e /\ pbyte e <= hi /\
+      cchain contributes (fun lo' k => cmono lo' (pbyte e) k) (pbyte b) kids
+  end.
+Definition cmono_forest (lo hi : N) (ts : list ctree) : Prop := cchain contributes (fun lo' k => cmono lo' hi k) lo ts.
+End Mono.
